@@ -35,7 +35,50 @@ def digest(obj):
     return hashlib.sha256(repr(obj).encode()).hexdigest()[:24]
 
 
+_END = object()
+
+
 def tree_digest(tree, skip=SKIP):
+    """Digest of the same structural dump as canon_ast, computed with an explicit stack (a streamed, bracketed token
+    sequence), so that trees nested deeper than the interpreter's recursion limit - a sum of some hundred terms is a
+    left-nested chain of expressions - can be compared without touching that limit (the code under test runs under
+    the interpreter's own)."""
     if tree is None:
         return None
-    return digest(canon_ast(tree, 0, skip))
+    h = hashlib.sha256()
+    stack = [tree]
+    while stack:
+        node = stack.pop()
+        if node is _END:
+            h.update(b")")
+            continue
+        if node is None or isinstance(node, (bool, int, str)):
+            h.update(("%s:%r;" % (type(node).__name__, node)).encode())
+        elif isinstance(node, float):
+            h.update(("float:%s;" % ("nan" if node != node else repr(node))).encode())
+        elif isinstance(node, enum.Enum):
+            h.update(("enum:%s.%s;" % (type(node).__name__, node.name)).encode())
+        elif isinstance(node, (list, tuple)):
+            h.update(b"(seq")
+            stack.append(_END)
+            stack.extend(reversed(node))
+        elif isinstance(node, (set, frozenset)):
+            # sets in the AST are small and flat: elements by their own digests, sorted
+            h.update(("(set%s)" % sorted(tree_digest(x, skip) or "None" for x in node)).encode())
+        elif isinstance(node, dict):
+            h.update(b"(dict")
+            stack.append(_END)
+            for k, v in reversed(list(node.items())):
+                stack.append(v)
+                stack.append(k)
+        else:
+            d = getattr(node, "__dict__", None)
+            if d is not None:
+                h.update(("(%s" % type(node).__name__).encode())
+                stack.append(_END)
+                for k, v in reversed([(k, v) for k, v in d.items() if k not in skip]):
+                    stack.append(v)
+                    stack.append("field:" + k)
+            else:
+                h.update(("obj:%s:%r;" % (type(node).__name__, node)).encode())
+    return h.hexdigest()[:24]
